@@ -145,6 +145,10 @@ def decodeEnum (viaValue : Bool) (vs : List VariantSpec) : Json → Option (Nat 
     | none => none
   | _ => none
 
+/-- the member list of an encoded struct body: declared field names paired with canonical values -/
+def pairUp (fs : List FieldSpec) (cs : List Json) : List (String × Json) :=
+  (fs.zip cs).map fun p => (p.1.name, p.2)
+
 /-- what `to_json_string` prints for variant `i` with the given field values -/
 def encodeEnum (vs : List VariantSpec) (i : Nat) (fields : List (String × Json)) : Json :=
   .obj [((vs[i]?.map (·.wire)).getD "", .obj fields)]
